@@ -6,6 +6,7 @@
 package c09
 
 import (
+	"bytes"
 	"context"
 	"encoding/json"
 	"fmt"
@@ -198,8 +199,9 @@ func TestC09(t *testing.T) {
 		for rep := 0; rep < r.N(12, 200); rep++ {
 			concurrent(t, r, dir, rep)
 		}
+		staleNotModified(t, r, dir)
 	}
-	r.Require("concurrent_conditional_gets", "histories", "db_notchanged", "db_value", "http_notchanged", "http_value", "file_notchanged", "file_value", "denied_checks",
+	r.Require("post_quiescence_conditional_gets", "concurrent_conditional_gets", "histories", "db_notchanged", "db_value", "http_notchanged", "http_value", "file_notchanged", "file_value", "denied_checks",
 		"shape_reactivated_older_version", "shape_v_existing_inactive", "shape_v_names_deleted_version", "shape_v_beyond_latest")
 	r.Rule("seeded histories of 15-30 put/activate/delete-version/delete steps over 2 names; after every step conditional gets with V in {0, 1, active, every version number up to latest (existing and deleted), latest+1, 2^32-1} on both names and an absent one, through db.GetConditional, HTTP handler + setec.Client, and FileClient on a file generated from the model; plus a caller without get permission. Distinct = (front end, class of V, model outcome)")
 }
@@ -279,6 +281,70 @@ func concurrent(t *testing.T, r *evid.Run, dir string, rep int) {
 	close(stop)
 	wg.Wait()
 	r.Distinct("concurrent-toggle")
+}
+
+// staleNotModified: pollers hammer the HTTP front end with conditional gets while the active version is
+// switched; once everything is quiet again, "not modified" for the superseded version is a plain lie.
+func staleNotModified(t *testing.T, r *evid.Run, dir string) {
+	d, err := realdb.Open(filepath.Join(dir, "stale304.db"), realdb.DummyKey("c09s"))
+	if err != nil {
+		t.Fatal(err)
+	}
+	srv, err := httpdrv.New(d)
+	if err != nil {
+		t.Fatal(err)
+	}
+	all := []refmodel.Rule{{Actions: []string{"get", "info", "put", "activate", "delete"}, Patterns: []string{"*"}}}
+	srv.SetWho(addr, httpdrv.Who{Login: "ok@verif", Node: "ok", Rules: all})
+	cl := setec.Client{Server: "http://setec.verif", DoHTTP: srv.ClientDo(addr)}
+	su := realdb.Super()
+	big := bytes.Repeat([]byte("0123456789abcdef"), 1<<16) // 1 MiB: saves take a while, which widens every window around them
+	d.Put(su, "t", append([]byte("one-"), big...))
+	d.Put(su, "t", append([]byte("two-"), big...))
+	ctx := context.Background()
+	cur := uint32(1)
+	for round := 0; round < r.N(40, 300); round++ {
+		r.Eval(1)
+		d.Put(su, "unrelated", []byte(fmt.Sprintf("u%d", round)))
+		stop := make(chan struct{})
+		var wg sync.WaitGroup
+		for g := 0; g < 8; g++ {
+			wg.Add(1)
+			go func() {
+				defer wg.Done()
+				for {
+					select {
+					case <-stop:
+						return
+					default:
+					}
+					cl.GetIfChanged(ctx, "t", api.SecretVersion(cur))
+				}
+			}()
+		}
+		time.Sleep(200 * time.Microsecond)
+		next := 3 - cur
+		if err := d.Activate(su, "t", api.SecretVersion(next)); err != nil {
+			t.Fatal(err)
+		}
+		close(stop)
+		wg.Wait()
+		// quiescent: the active version is `next`; a conditional get with the old one must deliver it
+		for k := 0; k < 3; k++ {
+			sv, err := cl.GetIfChanged(ctx, "t", api.SecretVersion(cur))
+			r.Count("post_quiescence_conditional_gets", 1)
+			if err != nil || uint32(sv.Version) != next {
+				r.Violation("http-not-modified-although-changed", -1, fmt.Sprintf("round %d: activate t %d had returned and nothing else was running, yet get-if-changed t V=%d answered (%v, %v); the active version is %d", round, next, cur, sv != nil, err, next), nil)
+				return
+			}
+			if sv2, err := cl.GetIfChanged(ctx, "t", api.SecretVersion(next)); realdb.Classify(err) != refmodel.NotChanged {
+				r.Violation("http-value-although-unchanged", -1, fmt.Sprintf("round %d: get-if-changed t V=%d (the active version) answered (%v, %v)", round, next, sv2 != nil, err), nil)
+				return
+			}
+		}
+		cur = next
+	}
+	r.Distinct("post-quiescence")
 }
 
 func activeOf(m *refmodel.Model, n string) uint32 {
